@@ -143,6 +143,42 @@ deriving Inhabited
 
 def C12Sess.refs (c : C12Sess) (u : Nat) : Nat := (c.pdrs.filter fun p => p.2.contains u).length
 
+/-- a usage report as the data plane produced it (driver answer or kernel notification) -/
+structure SrcRep where
+  urr : Nat
+  trig : Nat
+  meas : List Nat     -- six volume / packet counters, start time, end time, duration
+deriving Repr
+
+def parseSrcReps (s : String) : List SrcRep :=
+  if s == "_" || s == "" then [] else
+  (splitOn1 s ';').filterMap fun t =>
+    match splitOn1 t ':' with
+    | ["u", u, tr, ms] => some { urr := natD u, trig := hexD tr, meas := (splitOn1 ms '+').map natD }
+    | _ => none
+
+/-- C10, specification side: is the emitted usage report `u` the measured report `r`, carried as TS 29.244 says for a URR
+    with measurement method (`durat`, `volum`) and measurement information `mnop` (`info = none`: not known here)? -/
+def usarCarries (u : UsarObs) (r : SrcRep) (info : Option (Bool × Bool × Bool)) : Bool :=
+  let extra := Gen.report.USAR_TRIG_TERMR ||| Gen.report.USAR_TRIG_IMMER
+  let bit (w f : Nat) : Bool := w / f % 2 == 1
+  let clear (w : Nat) : Nat := (List.range 24).foldl (fun acc i => if bit w (2 ^ i) && !bit extra (2 ^ i) then acc + 2 ^ i else acc) 0
+  let noTimes := bit u.trig Gen.report.USAR_TRIG_START || bit u.trig Gen.report.USAR_TRIG_STOPT || bit u.trig Gen.report.USAR_TRIG_MACAR
+  let timesOk := if noTimes then u.times == "-" else u.times == s!"{r.meas.getD 6 0}+{r.meas.getD 7 0}"
+  let volOk :=
+    if u.vol == "-" then (match info with | some (_, v, _) => !v | none => true) else
+    match splitOn1 u.vol ':' with
+    | [fl, cs] =>
+      let f := hexD fl
+      let c := (splitOn1 cs '+').map natD
+      (List.range 6).all (fun i => if bit f (2 ^ i) then c.getD i 0 == r.meas.getD i 0 else true) &&
+      (match info with | some (_, v, m) => v && f == (if m then 0x3f else 0x07) | none => true)
+    | _ => false
+  let durOk :=
+    if u.dur == "-" then (match info with | some (d, _, _) => !d | none => true)
+    else u.dur == toString (r.meas.getD 8 0) && (match info with | some (d, _, _) => d | none => true)
+  u.urr == r.urr && clear u.trig == clear r.trig && timesOk && volOk && durOk
+
 /-- what the predicates remember across the events of a case -/
 structure PState where
   prev : Dump := {}
@@ -408,7 +444,37 @@ def check (ps : PState) (evLine : String) (obs : List String) (fault : Option St
                 fs := fs ++ [s!"C12 the final report of URR {u} (session {hexN seid}) is not marked as a termination report"]
         tbl := (seid, c) :: tbl.filter (·.1 != seid)
     return (tbl, fs)
-  let fails := fails ++ c11fails ++ c12fails
+  -- C10 (external): every usage report sent carries a report the data plane produced in this event for that session — URR id,
+  -- trigger, start / end time, counters and duration as measured, the measurement IEs as the URR's method and MNOP select
+  let c10fails : List String := Id.run do
+    let mut fs : List String := []
+    if !isDup && typ != "tmo" && (typ == "report" || (typ == "recv" && (kind == "mod" || kind == "del"))) then
+      match prev.live seid with
+      | none => pure ()
+      | some ds =>
+        let fromDp : List SrcRep := obs.flatMap fun o => match wordsOf o with
+          | ["dp", s', _, "urr", _, "ok", reps] => if hexD s' == seid then parseSrcReps reps else []
+          | _ => []
+        let srcs := fromDp ++ (if typ == "report" then parseSrcReps (lookD m "items" "_") else [])
+        -- URRs whose method may change inside this very request: IE selection is not judged for them
+        let touched := (["curr", "uurr"].flatMap fun key => (listOf (lookD m key "_")).map fun t => (splitOn1 t '/').headD "-").filterMap parseId
+        for s in sends do
+          if s.kind ∈ ["modrsp", "delrsp", "srreq"] then
+            for u in parseUsars (lookD s.f "usar" "_") do
+              let info := if touched.contains u.urr then none else
+                (ds.urrs.find? (·.id == u.urr)).map fun i => (i.durat, i.volum, i.mnop)
+              if !(srcs.any fun r => usarCarries u r info) then
+                fs := fs ++ [s!"C10 usage report of URR {u.urr} in the {s.kind} of session {hexN seid} (trigger {u.trig}, times {u.times}, volume {u.vol}, duration {u.dur}) " ++
+                             s!"is not one of the reports the data plane produced for it in this event, carried as measured: {reprStr (srcs.filter (·.urr == u.urr))}"]
+        -- a notification's reports for URRs the session knows are all delivered (none missing, none twice)
+        if typ == "report" then
+          for uid in (srcs.map (·.urr)).eraseDups do
+            let want := if ds.urrs.any (·.id == uid) then (srcs.filter (·.urr == uid)).length else 0
+            let got := ((sends.filter (·.kind == "srreq")).flatMap fun s => (parseUsars (lookD s.f "usar" "_")).filter (·.urr == uid)).length
+            if got != want then
+              fs := fs ++ [s!"C10 the data plane reported URR {uid} of session {hexN seid} {want} time(s) (known to the session: {ds.urrs.any (·.id == uid)}); the Session Report Request carries it {got} time(s)"]
+    return fs
+  let fails := fails ++ c11fails ++ c12fails ++ c10fails
   -- bookkeeping for the next event
   let cache' := if typ == "recv" && kind ∈ ["hb", "assoc", "est", "mod", "del", "other"] && !isDup then
       let rsp := (sends.filter fun s => s.kind != "srreq" && s.peer == peer).map (·.raw)
